@@ -7,6 +7,10 @@ GT = "./internal/mysql/gtids"
 OPT = "./internal/app/optimization"
 
 REGISTRY = {
+    "C04": dict(
+        level="exploration",
+        units=[dict(pkg=APP, test="TestVerifC04", quick=1600, thorough=60000, shards_quick=16, shards_thorough=16)],
+    ),
     "C09": dict(
         level="exploration",
         units=[dict(pkg=APP, test="TestVerifC09", quick=1600, thorough=60000, shards_quick=16, shards_thorough=16)],
